@@ -490,3 +490,115 @@ Proof.
   apply Forall_cons_iff in H. destruct H as [H1 H2]. unfold csub. destruct (N.leb_spec ov (reward + f_offset f)); [|lia]. cbn [bind].
   destruct (IH H2) as (l' & ->). cbn [bind]. eauto.
 Qed.
+
+(* ---- one transaction *)
+
+Record TM (cfg : config) (h : N) (L : ledger) (K fees : N) (b : bst) : Prop := {
+  m_ti : TI b;
+  m_keyf : KeyF (s_entries (b_st b)) (b_flot b);
+  m_led : Led cfg L (s_utxo (b_st b));
+  m_cnt : b_next b + nnew (b_flot b) <= K;
+  m_rew : b_reward b = subsidy h + fees;
+  m_cb : c_sats cfg = true -> ranges_size (b_cb_ranges b) = b_reward b;
+  m_pend : forall f, In f (b_flot b) -> is_new f = true -> f_unbound f = false -> f_offset f < b_reward b
+}.
+
+Lemma TI_ext : forall b b2,
+  s_entries (b_st b2) = s_entries (b_st b) -> s_id2seq (b_st b2) = s_id2seq (b_st b) ->
+  b_next b2 = b_next b -> b_blessed b2 = b_blessed b -> b_cursed b2 = b_cursed b ->
+  (forall op u s off, tgP op (s_utxo (b_st b2)) = Some u -> In (s, off) (u_insc u) -> tgN s (s_entries (b_st b)) <> None) ->
+  TI b -> TI b2.
+Proof.
+  intros b b2 E1 E2 E3 E4 E5 HK [TD TV TX TK TC]. split; rewrite ?E1, ?E2, ?E3, ?E4, ?E5; auto.
+Qed.
+
+Lemma sum_tv_sizes : forall cfg ents, c_sats cfg = true -> ranges_size (concat (map u_ranges ents)) = sum_tv cfg ents.
+Proof.
+  intros cfg ents HS. rewrite ranges_size_concat. unfold sum_tv. induction ents as [|u r IH]; cbn [fold_right]; [reflexivity|].
+  rewrite IH. unfold total_value. rewrite HS. reflexivity.
+Qed.
+
+Definition tx_valid (cfg : config) (L : ledger) (t : tx) (L' : ledger) (fee : N) : Prop :=
+  t_id t <> 0 /\ tx_plain t /\ first_only (t_envs t) /\
+  exists s L1, ledger_take (t_ins t) L = Some (s, L1) /\ sum_values (t_outs t) <= s /\
+    L' = ledger_put (t_id t) 0 (t_outs t) L1 /\ fee = s - sum_values (t_outs t).
+
+Lemma index_tx_total_plain : forall cfg h t L L' K fees fee b,
+  TM cfg h L K fees b -> tx_valid cfg L t L' fee -> K + N.of_nat (length (t_envs t)) <= I32_LIMIT ->
+  exists b', index_tx cfg h true false t b = Ok b' /\ TM cfg h L' (K + N.of_nat (length (t_envs t))) (fees + fee) b'.
+Proof.
+  intros cfg h t L L' K fees fee b [MT MK ML MC MR MB MP] (Hz & HP & HFo & s & L1 & HT & HV & -> & ->) HB.
+  destruct (take_inputs_led cfg _ _ _ _ _ ML HT) as (ents & U1 & ET & L1ed & ->).
+  destruct (take_inputs_tg _ _ _ _ ET) as (T1 & T2 & T3). pose proof (take_inputs_length _ _ _ _ ET) as TL.
+  destruct MT as [TD TV TX TK TC].
+  assert (HKe : forall u s off, In u ents -> In (s, off) (u_insc u) -> tgN s (s_entries (b_st b)) <> None).
+  { intros u s off Hu Hp. destruct (Forall2_In_r _ _ _ _ T1 Hu) as (p & _ & P). eapply TK; eauto. }
+  unfold index_tx. rewrite ET. cbn [bind].
+  (* sat ranges *)
+  assert (HSp : exists per_out in_ranges b1,
+     (if c_sats cfg
+      then do '(per_out, lft) <- split_sats (t_outs t) (concat (map u_ranges ents));
+           Ok (per_out, Some (concat (map u_ranges ents)),
+               mkB (b_st b) (b_flot b) (b_reward b) (b_lost b) (b_blessed b) (b_cursed b) (b_unb b) (b_next b) (b_cb_ranges b ++ lft) (b_lost_ranges b))
+      else Ok ([], None, b)) = Ok (per_out, in_ranges, b1) /\
+     b_st b1 = b_st b /\ b_flot b1 = b_flot b /\ b_reward b1 = b_reward b /\ b_next b1 = b_next b /\
+     b_blessed b1 = b_blessed b /\ b_cursed b1 = b_cursed b /\
+     (c_sats cfg = true -> Forall2 (fun o m => ranges_size m = o_value o) (t_outs t) per_out) /\
+     (forall rs, in_ranges = Some rs -> ranges_size rs = sum_tv cfg ents) /\
+     (c_sats cfg = true -> ranges_size (b_cb_ranges b1) = b_reward b + (sum_tv cfg ents - sum_values (t_outs t)))).
+  { destruct (c_sats cfg) eqn:S.
+    - destruct (split_sats_total (t_outs t) (concat (map u_ranges ents))) as ([po lft] & E); [rewrite (sum_tv_sizes cfg) by auto; lia|].
+      rewrite E. cbn [bind]. do 3 eexists. split; [reflexivity|]. cbn. repeat split; auto.
+      + intros _. eapply split_sats_sizes; eauto.
+      + intros rs Hr. inv Hr. apply sum_tv_sizes. auto.
+      + intros _. rewrite ranges_size_app, (MB eq_refl). pose proof (split_sats_size _ _ _ _ E) as SZ. rewrite (sum_tv_sizes cfg) in SZ by auto. lia.
+    - do 3 eexists. split; [reflexivity|]. repeat split; auto; try discriminate. }
+  destruct HSp as (per_out & in_ranges & b1 & -> & Q1 & Q2 & Q3 & Q4 & Q5 & Q6 & HSz & HIr & HCb). cbn [bind].
+  set (utxo2 := put_outputs cfg (t_id t) 0 (t_outs t) per_out U1).
+  set (b2 := set_st b1 (with_utxo (b_st b) utxo2)).
+  assert (T2i : TI b2).
+  { split; subst b2; unfold set_st, with_utxo; cbn [b_st b_next b_blessed b_cursed s_entries s_id2seq s_utxo]; rewrite ?Q4, ?Q5, ?Q6; auto.
+    intros op u s0 off Hu Hp. subst utxo2. apply put_outputs_tg in Hu. destruct Hu as [[_ Hu]|Hu]; [rewrite Hu in Hp; destruct Hp|]. eapply TK; eauto. }
+  assert (L2 : Led cfg (ledger_put (t_id t) 0 (t_outs t) L1) utxo2) by (apply put_outputs_led; auto).
+  (* floating inscriptions *)
+  destruct (floating_of_total_plain cfg (with_utxo (b_st b) utxo2) h t ents HP TL HFo) as (F & EF & FO & FK & FN); auto.
+  unfold index_inscriptions. fold b2. change (b_st b2) with (with_utxo (b_st b) utxo2). rewrite EF. cbn [bind].
+  rewrite (plain_not_coinbase t HP).
+  destruct (assign (t_id t) 0 0 (t_outs t) (sort_by f_offset F)) as [[locs rest] ov] eqn:EA.
+  pose proof (assign_split _ _ _ _ _ _ _ _ EA) as ESplit.
+  assert (AS0 : Forall (fun f => 0 <= f_offset f) (sort_by f_offset F)) by (apply Forall_forall; intros; lia).
+  destruct (assign_spec (t_id t) (t_outs t) 0 0 (sort_by f_offset F) locs rest ov (sort_by_sorted f_offset F) AS0 EA) as (Hov & Hrest & HLoc).
+  rewrite N.add_0_l in Hov.
+  assert (PM : Permutation (map loc_flot locs ++ rest) F) by (rewrite <- ESplit; apply sort_by_perm).
+  assert (InF : forall f, In f (map loc_flot locs ++ rest) -> In f F) by (intros f Hf; eapply Permutation_in; eauto).
+  assert (NN : nnew F = nnew (map loc_flot locs) + nnew rest) by (rewrite <- nnew_app; symmetry; apply nnew_perm; exact PM).
+  destruct (apply_locs_total h in_ranges locs b2 T2i) as (b3 & EL & T3i & K3).
+  { subst b2. unfold set_st. cbn [b_next]. rewrite Q4. lia. }
+  { intros f s0 Hf Ho. apply (FK f s0); auto. apply InF. apply in_or_app. auto. }
+  { intros f Hf rs Hr Hn Hu. rewrite (HIr rs Hr). apply FO; auto. apply InF. apply in_or_app. auto. }
+  rewrite EL. cbn [bind].
+  destruct (rebase_total (b_reward b3) ov rest) as (rest' & ER); [exact Hrest|]. rewrite ER. cbn [bind].
+  unfold csub. destruct (N.leb_spec ov (sum_tv cfg ents)) as [_|Hbad]; [|lia]. cbn [bind].
+  eexists. split; [reflexivity|].
+  pose proof (apply_locs_aux _ _ _ _ _ EL) as (A1 & A2 & A3 & A4 & A5 & _).
+  subst b2. cbn [set_st b_flot b_reward b_lost b_cb_ranges b_lost_ranges] in A1, A2, A3, A4, A5.
+  pose proof (apply_locs_next _ _ _ _ _ EL) as NX. cbn [set_st b_next] in NX.
+  destruct (rebase_ids _ _ _ _ ER) as (R1 & _ & R3).
+  split; cbn [b_st b_flot b_next b_reward b_cb_ranges].
+  - eapply TI_ext; [| | | | | |exact T3i]; try reflexivity. intros op u s0 off Hu Hp. destruct T3i as [_ _ _ TK3 _]. eapply TK3; eauto.
+  - rewrite A1, Q2. intros f s0 Hf Ho. apply in_app_or in Hf. destruct Hf as [Hf|Hf].
+    + apply K3. cbn [set_st b_st with_utxo s_entries]. eapply MK; eauto.
+    + destruct (Forall2_In_r _ _ _ _ (rebase_offsets _ _ _ _ ER) Hf) as (g & G1 & _ & G3 & _). rewrite G3 in Ho.
+      apply K3. cbn [set_st b_st with_utxo s_entries]. apply (FK g s0); auto. apply InF. apply in_or_app. auto.
+  - eapply apply_locs_led; [|exact EL]. cbn [set_st b_st with_utxo s_utxo]. exact L2.
+  - rewrite NX, A1, Q2, Q4, nnew_app. assert (nnew rest' = nnew rest) by (unfold nnew; rewrite R1; reflexivity). lia.
+  - rewrite A2, Q3, MR, Hov. lia.
+  - intros S. rewrite A4, (HCb S), A2, Q3, Hov. lia.
+  - rewrite A1, Q2, A2, Q3. intros f Hf Hn Hu. apply in_app_or in Hf. destruct Hf as [Hf|Hf].
+    + specialize (MP f Hf Hn Hu). lia.
+    + destruct (Forall2_In_r _ _ _ _ (rebase_offsets _ _ _ _ ER) Hf) as (g & G1 & _ & G3 & G4).
+      assert (Hgn : is_new g = true) by (unfold is_new in *; rewrite <- G3; exact Hn).
+      assert (Hgu : f_unbound g = false) by (unfold f_unbound in *; rewrite <- G3; exact Hu).
+      assert (Hg : f_offset g < sum_tv cfg ents) by (apply FO; auto; apply InF; apply in_or_app; auto).
+      rewrite A2, Q3 in G4. rewrite Hov in *. lia.
+Qed.
